@@ -2,6 +2,7 @@
 from engine import Report
 from facts import *
 import r_cli
+import p_c07
 
 EXPLANATION = (
     "A-DOM / A-WHO over crate stylua and stylua_lib::format_ast: (R-FS) the single fs::write happens only after "
@@ -97,4 +98,4 @@ def rule_verify(ctx, prop):
 
 def run(ctx):
     return [r_cli.rule_fs(ctx, "C14"), r_cli.rule_workers(ctx, "C14"), r_cli.rule_exit(ctx, "C14"), r_cli.rule_err_status(ctx, "C14"), r_cli.rule_loop_exit(ctx, "C14"),
-            rule_verify(ctx, "C14"), r_cli.rule_verify_wiring(ctx, "C14"), r_cli.rule_panic_mode(ctx, "C14"), r_cli.rule_job_only_in_pool(ctx, "C14")]
+            rule_verify(ctx, "C14"), r_cli.rule_verify_wiring(ctx, "C14"), r_cli.rule_panic_mode(ctx, "C14"), r_cli.rule_job_only_in_pool(ctx, "C14"), p_c07.rule_parse(ctx, "C14"), r_cli.rule_exact_read(ctx, "C14")]
